@@ -200,7 +200,7 @@ def absorb_summary(ctx, st, s, info, wall, exhaustive):
                                                replay_args=[str(x) for x in ctx.pick(st.get("replay_args", []))])))
     rep = dict(stage=st["name"], kind=st["kind"], tlc_states=info["distinct"], tlc_generated=info["generated"],
                tlc_depth=info["depth"], cases=s["cases"], nontrivial=s["nontrivial"], comparisons=s["checks"],
-               violations=s["nviol"], wall_s=round(wall, 1))
+               violations=s["nviol"], wall_s=round(wall, 1), exhaustive=bool(exhaustive))
     if s.get("notes"):
         rep["notes"] = s["notes"]
     ctx.stage_reports.append(rep)
@@ -226,7 +226,7 @@ def stage_mc(ctx, st):
     ctx.states += info["distinct"]
     ctx.transitions += info["generated"]
     rep = dict(stage=st["name"], kind="mc", tlc_states=info["distinct"], tlc_generated=info["generated"],
-               tlc_depth=info["depth"], wall_s=round(wall, 1), note=st.get("note", ""))
+               tlc_depth=info["depth"], wall_s=round(wall, 1), note=st.get("note", ""), exhaustive=True)
     ctx.stage_reports.append(rep)
     log("[%s] %s" % (st["name"], json.dumps(rep)))
 
@@ -325,12 +325,40 @@ def stage_trace(ctx, st):
                      "distinct_nontrivial counts accepted histories (each has >= 3 calls)" % (st["name"], st["module"]))
     ctx.exhaustive.append(False)
     rep = dict(stage=st["name"], kind="trace", shards=nshards, histories=traces, accepted=accepted_traces, events=events,
-               wall_s=round(wall, 1))
+               wall_s=round(wall, 1), exhaustive=False)
     ctx.stage_reports.append(rep)
     log("[%s] %s" % (st["name"], json.dumps(rep)))
 
 
-STAGE_KINDS = {"gen": stage_gen, "mc": stage_mc, "trace": stage_trace}
+def stage_apalache(ctx, st):
+    """Inductive-invariant check over unbounded integers with Apalache (design level, no binding).
+    Init => IndInv and IndInv /\\ Next => IndInv'.  A time-out or tool failure is reported, never judged."""
+    d = stage_specs(ctx.scratch, st.get("specdir", st["family"]), st["name"])
+    obligations = [("base", ["--init=" + st.get("init", "Init"), "--inv=" + st["inv"], "--length=0"]),
+                   ("step", ["--init=" + st["indinit"], "--inv=" + st["inv"], "--length=1"])]
+    done = 0
+    t = time.time()
+    notes = []
+    for name, args in obligations:
+        p = subprocess.run(["timeout", "300", "apalache-mc", "check", "--no-deadlock"] + args + [st["module"]],
+                           cwd=d, capture_output=True, text=True)
+        out = p.stdout + p.stderr
+        if "The outcome is: NoError" in out:
+            done += 1
+        elif "The outcome is: Error" in out:
+            raise Machinery("stage %s: Apalache found a counterexample to the inductive invariant (%s): the design-level model is wrong" % (st["name"], name))
+        else:
+            notes.append("%s: no verdict (exit %d)" % (name, p.returncode))
+    rep = dict(stage=st["name"], kind="apalache", obligations=len(obligations), discharged=done, wall_s=round(time.time() - t, 1),
+               note="; ".join(notes) or st.get("note", ""))
+    ctx.stage_reports.append(rep)
+    if done:
+        ctx.states += done
+        ctx.transitions += done
+    log("[%s] %s" % (st["name"], json.dumps(rep)))
+
+
+STAGE_KINDS = {"gen": stage_gen, "mc": stage_mc, "trace": stage_trace, "apalache": stage_apalache}
 
 
 # ---------------------------------------------------------------------------------------------
@@ -360,8 +388,8 @@ def write_evidence(pid, prop, ctx, wall, nviol, level="model_checking"):
             samples=ctx.samples[:6] or [{"note": "no sample collected"}],
             evaluations=ctx.evaluations, distinct_nontrivial=ctx.nontrivial,
             rule=" || ".join(ctx.rules),
-            exhaustive=bool(ctx.exhaustive) and all(ctx.exhaustive),
-            exhaustive_stages=[r["stage"] for r, e in zip(ctx.stage_reports, ctx.exhaustive) if e] if ctx.exhaustive else [],
+            exhaustive=bool(ctx.stage_reports) and all(r.get("exhaustive", True) for r in ctx.stage_reports),
+            exhaustive_stages=[r["stage"] for r in ctx.stage_reports if r.get("exhaustive")],
             stages=ctx.stage_reports,
             checker_cmd="java -cp tla2tools.jar tlc2.TLC (TLC2 2026.09.04) + harness/binder built from /repo working tree",
             trusted_base=sorted(ctx.trusted | {"TLC 1.8", "Go toolchain", "harness/binder comparison code"}),
